@@ -3,6 +3,7 @@
 every check must stay silent on each of them.
 
   import <worktree> <RID>     copy _refactor/{patchX.diff,meta.json} into refactored/<RID>-X/
+  import-fixed <worktree> <PROP>   copy _seed/fixed{A,B}.diff (repaired twins of seeded/<PROP>-E/-F) into refactored/X<nn>-{E,F}/
   check  <id>|all [--suite]   apply the patch to a scratch worktree of /repo HEAD, run every claimed check with
                               --repo <scratch>; print anything that is not exit 0; with --suite also run the
                               pinned test-suite on the refactored tree (to confirm that it IS behaviour-preserving
@@ -55,6 +56,32 @@ def cmd_import(wt, rid):
         m = load_meta(i)
         m.update({'id': i, 'summary': a.get('summary'), 'technique': a.get('technique'), 'functions': a.get('functions'),
                   'author': 'independent sub-agent asked for an exactly behaviour-preserving refactoring', 'author_tests_run': a.get('tests_run')})
+        save_meta(i, m)
+        print('imported', i)
+
+
+def cmd_import_fixed(wt, prop):
+    """repaired twins of the round-3 seeded changes: <worktree>/_seed/fixed{A,B}.diff (the clean-up of seeded/<prop>-E/-F with its
+    slip repaired by an independent sub-agent) -> refactored/X<nn>-{E,F}/"""
+    sd = os.path.join(wt, '_seed')
+    try:
+        fx = json.load(open(os.path.join(sd, 'fixed.json')))
+    except Exception:
+        fx = {}
+    for x, y in (('A', 'E'), ('B', 'F')):
+        pf = os.path.join(sd, 'fixed%s.diff' % x)
+        if not os.path.exists(pf):
+            continue
+        i = 'X%s-%s' % (prop[1:], y)
+        d = os.path.join(ROOT, i)
+        os.makedirs(d, exist_ok=True)
+        shutil.copy(pf, os.path.join(d, 'patch.diff'))
+        a = fx.get(x, {}) if isinstance(fx, dict) else {}
+        m = load_meta(i)
+        m.update({'id': i, 'summary': 'the clean-up of seeded/%s-%s with its slip repaired: %s' % (prop, y, a.get('repair')),
+                  'other_differences_found': a.get('other_differences_found'), 'twin_of': '%s-%s' % (prop, y),
+                  'author': 'independent sub-agent given the seeded patch, its description and its demonstration, asked to keep the clean-up and repair the slip',
+                  'author_tests_run': a.get('tests_run')})
         save_meta(i, m)
         print('imported', i)
 
@@ -115,6 +142,8 @@ def main():
         print(__doc__)
     elif a[0] == 'import':
         cmd_import(a[1], a[2])
+    elif a[0] == 'import-fixed':
+        cmd_import_fixed(a[1], a[2])
     elif a[0] == 'check':
         todo = ids() if a[1] == 'all' else [a[1]]
         if len(todo) > 1 and '--suite' not in a:
